@@ -49,6 +49,23 @@ def call(ex, st, base, attr, recv, args, kwargs, node):
             eng.assumptions_used.add("datetime.date objects: 1 <= toordinal() <= 3652059 (0001-01-01 .. 9999-12-31, library invariant)")
             yield st1, v
         return
+    if ty in ("py", "obj") and attr == "as_tuple" and not args:
+        # decimal.Decimal.as_tuple() -> (sign, digits, exponent) through the observer spec functions
+        t = base.t if ty == "py" else box(base)
+        isdec = z3.And(Py.is_obj(t), Py.cls(t) == models.CLSID["decimal.Decimal"])
+        for st1, r in ex.need(st, isdec, "AttributeError", ".as_tuple"):
+            if r is not None:
+                yield st1, r
+                continue
+            x = V("py", t)
+            sg = eng.spec_apply("spec.core", "dec_sign", [x])
+            ds = eng.spec_apply("spec.core", "dec_digits", [x])
+            xp = eng.spec_apply("spec.core", "dec_exp", [x])
+            st1.assume(z3.Or(sg.t == 0, sg.t == 1))
+            st1.assume(S.truthy(eng.spec_apply("spec.core", "DIGITS_OK", [ds, V("int", z3.Length(ds.t))])))
+            eng.assumptions_used.add("decimal.Decimal.as_tuple(): sign is 0 or 1 and digits is a tuple of ints 0..9 (library invariant)")
+            yield st1, V("tuple", z3.Concat(z3.Unit(box(sg)), z3.Unit(box(ds)), z3.Unit(box(xp))))
+        return
     if ty == "py":
         # methods that tell us the kind the code expects
         if attr in ("get", "items", "keys", "values", "pop", "update", "setdefault", "copy", "popitem"):
@@ -254,7 +271,7 @@ def call(ex, st, base, attr, recv, args, kwargs, node):
             if nc is not None and nc >= 0:
                 p = z3.IntVal(2 ** (8 * nc - 1) if z3.is_true(sg) and nc > 0 else (2 ** (8 * nc) if not z3.is_true(sg) else 1))
                 if z3.is_true(sg):
-                    ok = z3.BoolVal(False) if nc == 0 and False else (z3.And(-p <= x, x < p) if nc > 0 else x == 0)
+                    ok = z3.And(-p <= x, x < p) if nc > 0 else z3.Or(x == 0, x == -1)    # CPython: (-1).to_bytes(0, signed=True) == b""
                     fn = "int_to_bytes_signed_big" if big else "int_to_bytes_signed_little"
                 else:
                     ok = z3.And(x >= 0, x < p)
@@ -264,7 +281,7 @@ def call(ex, st, base, attr, recv, args, kwargs, node):
                 return
             if z3.is_true(sg):
                 p = eng.spec_apply("spec.core", "pow2", [V("int", 8 * n - 1)]).t
-                ok = z3.And(n >= 0, z3.Or(z3.And(n == 0, x == 0), z3.And(n > 0, -p <= x, x < p)))
+                ok = z3.And(n >= 0, z3.Or(z3.And(n == 0, z3.Or(x == 0, x == -1)), z3.And(n > 0, -p <= x, x < p)))
                 fn = "int_to_bytes_signed_big" if big else "int_to_bytes_signed_little"
             else:
                 p = eng.spec_apply("spec.core", "pow2", [V("int", 8 * n)]).t
